@@ -111,10 +111,13 @@ static URI_INLINE int URI_FUNC(FilenameToUriString)(const URI_CHAR * filename,
 			/* Copy text after last separator */
 			if (lastSep + 1 < input) {
 				if (!fromUnix && absolute && (firstSegment == URI_TRUE)) {
-					/* Quick hack to not convert "C:" to "C%3A" */
-					const int charsToCopy = (int)(input - (lastSep + 1));
+					/* Quick hack to not convert "C:" to "C%3A":
+					 * the drive goes in as is, the rest of the segment gets escaped */
+					const int charsToCopy = 2;
 					memcpy(output, lastSep + 1, charsToCopy * sizeof(URI_CHAR));
 					output += charsToCopy;
+					output = URI_FUNC(EscapeEx)(lastSep + 1 + charsToCopy, input, output,
+							URI_FALSE, URI_FALSE);
 				} else {
 					output = URI_FUNC(EscapeEx)(lastSep + 1, input, output,
 							URI_FALSE, URI_FALSE);
